@@ -20,6 +20,7 @@ EXPLANATION = (
     'guess_combinator_by_triplet returns the loop variable on a category match and <unk> only after exhaustion.'
     " The rule cache stores the callback's result vector untouched (positions are rule ids); no default argument of the readers evaluates the language at import time."
     ' Fourth round: when binary nodes are built through a shared helper that takes the head direction as a parameter, the helper is read in place at every reader routine calling it (a constant head direction is reported).'
+    ' Fifth round: ids and positions carried by items are full-width integers; label recovery is total over any three categories; the rule cache never shrinks.'
 )
 TRUSTED = ['clang-14 front end', 'CPython ast', 'sa/pyx.py normaliser', 'rule table DESIGN.md C12']
 
